@@ -17,11 +17,8 @@ echo "== with change: package tests (demo skipped)"; gotest -skip 'TestSeed' ./$
 files=$(git diff --name-only -- . ':(exclude)*_test.go'); git diff -- $files > /tmp/intake-$name.patch; git checkout -- $files
 echo "== without change: demo"; gotest -run 'SeedDemo|Seed' ./$pkg/ 2>&1 | tail -3
 git apply /tmp/intake-$name.patch
-echo "== check against the change"
-cd /repo && git diff --quiet || { echo repo dirty; exit 2; }
-git apply $out/patch.diff || { echo "patch does not apply to /repo"; exit 2; }
-trap 'cd /repo && git checkout -- . && git clean -fdq' EXIT
-cp /verif/evidence/$id.json /tmp/evidence-backup-$id.json 2>/dev/null; cd /verif && /verif/bin/gosym check $id --tier quick > /tmp/seedintake-$name.log 2>&1; rc=$?
-cp /tmp/evidence-backup-$id.json /verif/evidence/$id.json 2>/dev/null
+echo "== check against the change (run on the agent's worktree, /repo is not touched)"
+cp /verif/evidence/$id.json /tmp/evidence-backup-$id.$$.json 2>/dev/null; cd /verif && /verif/bin/gosym check $id --tier quick --repo $wt > /tmp/seedintake-$name.log 2>&1; rc=$?
+cp /tmp/evidence-backup-$id.$$.json /verif/evidence/$id.json 2>/dev/null; rm -f /tmp/evidence-backup-$id.$$.json
 grep -E "^(VIOLATION|KNOWN-FINDING|INCONCLUSIVE|ENCODING-MISMATCH|OK|  label)" /tmp/seedintake-$name.log | cut -c1-260 | head -8
 echo "exit=$rc"
